@@ -15,7 +15,7 @@ from typing import Any, Dict, List
 
 from .. import engine, defprog
 
-VARIANTS = '{"base", "alias_of_struct", "struct_with_message", "message_in_message", "message_array", "alias_array", "struct_array_of_alias_struct", "sections_reversed"}'
+VARIANTS = '{"base", "alias_of_struct", "struct_with_message", "message_in_message", "message_array", "alias_array", "struct_array_of_alias_struct", "sections_reversed", "struct_reuses_message"}'
 
 
 def run(tier: str, seed: int) -> Dict[str, Any]:
